@@ -6,5 +6,8 @@ CONSTANTS
   MaxOps = 3
   OriginInHash = TRUE
   RecordOffset = 0
+  MaxRollbacks = 1
+  EmptyRecordWritten = TRUE
+  CrashOnStale = FALSE
 INVARIANTS C27_RetainedReadable CollectorValid LiveNotDead
 CHECK_DEADLOCK FALSE
